@@ -15,6 +15,8 @@ type CoffCase struct {
 	Globals [][]string        `json:"globals"` // GLOBAL statements (names after renaming), in order
 	GPos    []int             `json:"gpos"`    // statement index in P.Stmts before which each GLOBAL statement goes (-1 = header)
 	File    *string           `json:"file"`    // [FILE] name, nil = no directive
+	Externs [][]string        `json:"externs"` // EXTERN statements (names unrelated to the program, and names that are also GLOBAL)
+	EPos    []int             `json:"epos"`    // where each EXTERN statement goes (as GPos; an EXTERN comes before a GLOBAL at the same place)
 	Cell_   string            `json:"cell"`
 }
 
@@ -36,12 +38,22 @@ func (c *CoffCase) source(withFormat bool) string {
 			}
 		}
 	}
+	emitE := func(pos int) {
+		for i, g := range c.Externs {
+			if c.EPos[i] == pos && len(g) > 0 {
+				b.WriteString("\tEXTERN " + strings.Join(g, ", ") + "\n")
+			}
+		}
+	}
+	emitE(-1)
 	emitG(-1)
 	for i, s := range c.P.Stmts {
+		emitE(i)
 		emitG(i)
 		b.WriteString(s.Line())
 		b.WriteByte('\n')
 	}
+	emitE(len(c.P.Stmts))
 	emitG(len(c.P.Stmts))
 	return renameIdents(b.String(), c.Rename)
 }
@@ -144,7 +156,22 @@ func (c *CoffCase) Judge(rs []Res, env *Env) Outcome {
 			return fail("symbol-count", fmt.Sprintf("GLOBAL %s appears %d times as an external symbol (names present: %v)", n, count[n], symNames(ext)))
 		}
 	}
+	externOnly := map[string]bool{}
+	for _, g := range c.Externs {
+		for _, n := range g {
+			if !seen[n] {
+				externOnly[n] = true
+			}
+		}
+	}
 	for _, s := range ext {
+		if externOnly[s.Name] {
+			// a name that is only EXTERN may or may not be recorded; if it is, as an undefined symbol and once
+			if s.Section != 0 || count[s.Name] != 1 {
+				return fail("extern-symbol", fmt.Sprintf("EXTERN %s is recorded with section %d, %d times", s.Name, s.Section, count[s.Name]))
+			}
+			continue
+		}
 		if !seen[s.Name] {
 			return fail("foreign-symbol", fmt.Sprintf("external symbol %q was never declared GLOBAL (declared: %v)", s.Name, declared))
 		}
@@ -325,6 +352,21 @@ func genCoffCase(r *Rand, prop string, reserved []string, big bool) *CoffCase {
 			c.GPos[k] = len(body)
 		default:
 			c.GPos[k] = r.Intn(len(body) + 1)
+		}
+	}
+	if r.Chance(1, 2) {
+		// EXTERN statements: names the program does not define, and names it also exports
+		ne := r.Intn(2) + 1
+		c.Externs = make([][]string, ne)
+		c.EPos = make([]int, ne)
+		for k := 0; k < ne; k++ {
+			for j := r.Intn(2) + 1; j > 0; j-- {
+				c.Externs[k] = append(c.Externs[k], "_ext"+genIdent(r, Pick(r, []int{2, 4, 11}), nil, taken))
+			}
+			if len(names) > 0 && r.Chance(1, 2) {
+				c.Externs[k] = append(c.Externs[k], names[r.Intn(len(names))])
+			}
+			c.EPos[k] = Pick(r, []int{-1, -1, len(body), r.Intn(len(body) + 1)})
 		}
 	}
 	if r.Chance(4, 5) {
